@@ -10,14 +10,40 @@ use std::io::Write;
 
 type PA = Vec<Option<bool>>; // per position: None = inactive
 
-fn to_terms(p: &PA) -> Vec<Term> {
-    p.iter().map(|x| match x { None => Term(2), Some(true) => Term::TOP, Some(false) => Term::BOT }).collect()
+/// the used positions of a store: `pos[i]` is the real position of compressed position i; `width` the store size
+struct PosMap {
+    pos: Vec<usize>,
+    width: usize,
 }
 
-fn pa_json(p: &PA) -> Value {
-    let act: Vec<usize> = p.iter().enumerate().filter(|(_, x)| x.is_some()).map(|(i, _)| i + 1).collect();
-    let val: Vec<usize> = p.iter().enumerate().filter(|(_, x)| **x == Some(true)).map(|(i, _)| i + 1).collect();
+fn to_terms(p: &PA, pm: &PosMap) -> Vec<Term> {
+    let mut t = vec![Term(2); pm.width];
+    for (i, x) in p.iter().enumerate() {
+        t[pm.pos[i]] = match x { None => Term(2), Some(true) => Term::TOP, Some(false) => Term::BOT };
+    }
+    t
+}
+
+/// real positions (1-based); TLC maps them back through the record's `pos` list
+fn pa_json(p: &PA, pm: &PosMap) -> Value {
+    let act: Vec<usize> = p.iter().enumerate().filter(|(_, x)| x.is_some()).map(|(i, _)| pm.pos[i] + 1).collect();
+    let val: Vec<usize> = p.iter().enumerate().filter(|(_, x)| **x == Some(true)).map(|(i, _)| pm.pos[i] + 1).collect();
     json!({"act": act, "val": val})
+}
+
+/// positions around machine-word, roaring-container (65536) and array-container (4096) boundaries
+const EDGE_POS: [usize; 22] = [0, 1, 7, 8, 31, 32, 33, 63, 64, 65, 127, 128, 255, 256, 4095, 4096, 4097, 65535, 65536, 65537, 131071, 131072];
+
+fn wide_posmap(rng: &mut StdRng, v: usize) -> PosMap {
+    let mut pos: Vec<usize> = Vec::new();
+    while pos.len() < v {
+        let p = if rng.gen_bool(0.7) { EDGE_POS[rng.gen_range(0..EDGE_POS.len())] } else { rng.gen_range(0..140_000) };
+        if !pos.contains(&p) { pos.push(p); }
+    }
+    if rng.gen_bool(0.5) { pos.sort(); }
+    let max = *pos.iter().max().unwrap();
+    let width = if rng.gen_bool(0.5) { max + 1 } else { max + 1 + rng.gen_range(0..70) };
+    PosMap { pos, width }
 }
 
 fn parts_json(parts: &(Vec<u32>, Vec<u32>)) -> Value {
@@ -48,10 +74,12 @@ fn mode_val(m: usize) -> DuplicateElemination {
     [DuplicateElemination::None, DuplicateElemination::Equiv, DuplicateElemination::Subsume][m]
 }
 
-fn one_seq(rng: &mut StdRng, id: String, with_empty: bool) -> Value {
+fn one_seq(rng: &mut StdRng, id: String, with_empty: bool, wide: bool) -> Value {
     let v = rng.gen_range(2..=6usize);
     let nadds = rng.gen_range(1..=7);
-    let mut store = NoGoodStore::new(v as u32);
+    let pm = if wide { wide_posmap(rng, v) } else { PosMap { pos: (0..v).collect(), width: v } };
+    let pm = &pm;
+    let mut store = NoGoodStore::new(pm.width as u32);
     let mut mode = rng.gen_range(0..3);
     store.set_dup_elem(mode_val(mode));
     let mut steps = Vec::new();
@@ -80,8 +108,8 @@ fn one_seq(rng: &mut StdRng, id: String, with_empty: bool) -> Value {
             let size = [1, 1, 2, 2, 2, 3, 3, 4][rng.gen_range(0..8)];
             rand_pa(rng, v, size)
         };
-        store.add_ng(NoGood::from_term_vec(&to_terms(&ng)));
-        steps.push(json!({"mode": mode_name(mode), "add": pa_json(&ng)}));
+        store.add_ng(NoGood::from_term_vec(&to_terms(&ng, pm)));
+        steps.push(json!({"mode": mode_name(mode), "add": pa_json(&ng, pm)}));
         added.push(ng);
     }
     // queries
@@ -124,7 +152,7 @@ fn one_seq(rng: &mut StdRng, id: String, with_empty: bool) -> Value {
     let queries: Vec<Value> = qs
         .iter()
         .map(|q| {
-            let terms = to_terms(q);
+            let terms = to_terms(q, pm);
             let i = NoGood::from_term_vec(&terms);
             let concl = match store.conclusions(&i) {
                 Some(c) => { let mut j = parts_json(&c.verif_parts()); j["st"] = json!("some"); j }
@@ -133,11 +161,13 @@ fn one_seq(rng: &mut StdRng, id: String, with_empty: bool) -> Value {
             let (tag, cl) = store.verif_closure(&terms);
             let mut clj = terms_json(&cl);
             clj["tag"] = json!(tag);
-            json!({"i": pa_json(q), "concl": concl, "closure": clj})
+            json!({"i": pa_json(q, pm), "concl": concl, "closure": clj})
         })
         .collect();
-    let dump: Vec<Value> = store.verif_dump().iter().map(|b| Value::Array(b.iter().map(parts_json).collect())).collect();
-    json!({"kind": "ngstore", "id": id, "v": v, "steps": steps, "queries": queries, "dump": dump})
+    // wide stores have one bucket per position of the width: only the non-empty ones are logged
+    let dump: Vec<Value> = store.verif_dump().iter().filter(|b| !wide || !b.is_empty()).map(|b| Value::Array(b.iter().map(parts_json).collect())).collect();
+    json!({"kind": "ngstore", "id": id, "v": v, "width": pm.width, "pos": pm.pos.iter().map(|p| p + 1).collect::<Vec<_>>(),
+           "steps": steps, "queries": queries, "dump": dump})
 }
 
 pub fn main(args: &[String]) {
@@ -160,7 +190,9 @@ pub fn main(args: &[String]) {
         let id = format!("g{}", k);
         let mut r2 = StdRng::seed_from_u64(rng.gen());
         let with_empty = k == 5; // one sequence starts with the empty nogood (known finding F10)
-        let res = std::panic::catch_unwind(std::panic::AssertUnwindSafe(|| one_seq(&mut r2, id.clone(), with_empty)));
+        let wide = k % 4 == 3; // a quarter of the sequences live on scattered positions of a wide store
+        let id = if wide { format!("w{}", k) } else { id };
+        let res = std::panic::catch_unwind(std::panic::AssertUnwindSafe(|| one_seq(&mut r2, id.clone(), with_empty, wide)));
         let v = match res {
             Ok(v) => v,
             Err(_) => json!({"kind": "panic", "id": id}),
